@@ -146,6 +146,33 @@ def main(tier, seed, replay=None):
         tw["meta"]["weights"] = "none"
         kinds["scaled+eps"] = kinds.get("scaled+eps", 0) + 1
         pairs.append((cw, tw, None, "scaled+eps"))
+    # weights that leave the OBSERVATIONS unchanged (every sample with a weight other than 1 has the observation exactly 0 — masked
+    # samples stored as zeros, with weight 0 or any other weight) are weights all the same: they still scale the basis functions and
+    # derivatives of those rows
+    for j in range(8 if tier == "quick" else 100):
+        c = gen_problem(rng, quant=(8 if j % 4 else None), weights="none", builder_made=False,
+                        family=["exp2c", "exp1l", "rat2", "cosmix"][j % 4], N=9 + j % 3,
+                        ctor=["new", "mrhs", "new_parallel", "mrhs_parallel"][j % 4])
+        sc = c["scalar"]
+        N = c["meta"]["N"]
+        w = [1.0] * N
+        for i_ in rng.sample(range(N), 3):
+            w[i_] = [0.0, 2.5, -1.0, 0.0][(j + i_) % 4]
+        cw = copy.deepcopy(c)
+        Yw_ = [o for o in cw["build"] if o[0] == "obs"][-1]
+        Yw_[2] = [[hx(0.0, sc) if w[i_] != 1.0 else h for i_, h in enumerate(col)] for col in Yw_[2]]
+        cw["build"].append(["weights", [hx(v, sc) for v in w]])
+        rng.shuffle(cw["build"])
+        cw["meta"]["weights"] = "masked0"
+        ops = states.observe_at(rng, c, nsets=1)
+        if j % 2 == 0:
+            ops = ops + [["fit", {"patience": 5}], ["observe"]]
+        cw["ops"] = ops
+        tw = scaled_twin(cw, w)
+        tw["ops"] = ops
+        tw["meta"]["weights"] = "none"
+        kinds["masked0"] = kinds.get("masked0", 0) + 1
+        pairs.append((cw, tw, None, "masked0"))
     cases = []
     for cw, tw, third, kind in pairs:
         cases += [cw, tw] + ([third] if third is not None else [])
